@@ -94,6 +94,17 @@ CHECKS.update({
    note=GEN_NOTE, technique="TLA+ typing-derivation generator + mutation + two-sided verdict conformance of the real typechecker"),
 })
 
+CHECKS.update({
+ "C09": dict(cat="model_checking", design="DESIGN.md 5 C09", engine="TcProto",
+   text="TcProto.tla models the caller / checker-goroutine protocol of process.Typecheck (five phases, each ok / err / panic; every plan and interleaving): "
+        "TLC checks NilOnlyIfAllOk, ErrOnlyIfBad, HostAlive, OneResult, NoPhaseAfterFailure, NoWorkAfterReturn and the liveness properties Returns / "
+        "WorkerFinishes; the pinned commit's protocol is kept as deviation actions and is rejected by the same properties. Every hook log of the real "
+        "Typecheck (all generated derivations and mutants, corpora, seeded parseable nonsense) must be a complete behaviour of the intended protocol "
+        "(TcProtoTrace.tla, phase outcomes inferred), and every call must return in time without killing the host (crash-isolated driver, grace period).",
+   note="Trusted: TLC; the verifTc hooks; the driver's crash attribution. Bounded: inputs of the tier/seed; 20 s per program; late crashes within the batch lifetime.",
+   technique="TLA+ protocol specification (TcProto.tla) model-checked incl. liveness + TLC trace validation of typechecker hook logs + crash/hang observation"),
+})
+
 REASON_TODO = "check not built yet (build in progress, see DESIGN.md section 9)"
 
 def main():
@@ -115,6 +126,8 @@ def main():
               "kind_free_text": "TLA+ specifications of type equality, well-formedness, mode inference and the mode order; TLC validates call logs of the real library"},
              {"name": "Gen", "path": "spec/Gen.tla", "serves_properties": ["C01", "C02", "C03", "C04", "C05", "C06", "C07", "C09", "C14"],
               "kind_free_text": "TLA+ state machine whose behaviours are typing derivations (well-typed programs) and single rule-violating mutations"},
+             {"name": "TcProto", "path": "spec/TcProto.tla", "serves_properties": ["C09", "C19"],
+              "kind_free_text": "TLA+ specification of the Typecheck caller/worker protocol (intended and as-written variants); TcProtoTrace.tla validates hook logs"},
              {"name": "Scanner", "path": "spec/Scanner.tla", "serves_properties": ["C11", "C12"],
               "kind_free_text": "TLA+ state machine of the hand-written scanner over character classes; TLC enumerates all short inputs"},
              {"name": "vworker", "path": "harness/cmd/vworker", "serves_properties": ["C08", "C09", "C10", "C11", "C12", "C15", "C16", "C17"],
